@@ -72,6 +72,42 @@ func lookupsOn(fn *ssa.Function, field string, methodTags *ssa.Global) []*nextLo
 	return out
 }
 
+// methodTagTable reads the composite literal of the method-tag map (request method → reserved trie key).
+func methodTagTable(p *core.Prog, methodTags *ssa.Global) map[string]string {
+	out := map[string]string{}
+	pk := p.Pkgs["httpd"]
+	if pk == nil || methodTags == nil {
+		return out
+	}
+	for _, f := range pk.Syntax {
+		ast.Inspect(f, func(n ast.Node) bool {
+			vs, ok := n.(*ast.ValueSpec)
+			if !ok {
+				return true
+			}
+			for i, nm := range vs.Names {
+				if i >= len(vs.Values) || nm.Name != methodTags.Name() {
+					continue
+				}
+				if cl, ok := vs.Values[i].(*ast.CompositeLit); ok {
+					for _, e := range cl.Elts {
+						kv, ok := e.(*ast.KeyValueExpr)
+						if !ok {
+							continue
+						}
+						k, v := pk.TypesInfo.Types[kv.Key].Value, pk.TypesInfo.Types[kv.Value].Value
+						if k != nil && v != nil && k.Kind() == constant.String && v.Kind() == constant.String {
+							out[constant.StringVal(k)] = constant.StringVal(v)
+						}
+					}
+				}
+			}
+			return true
+		})
+	}
+	return out
+}
+
 func runC04(p *core.Prog, r *core.Report) {
 	r.Rule("C04-R1", "panic-freedom: every index and slice expression of ServeHTTP, the route lookup, the method lookup and Params.Get is in bounds for every path and method string (zones); the Mux fields ServeHTTP dereferences are assigned by the constructor", 6)
 	r.Rule("C04-R2", "exactly one dispatch: every path of ServeHTTP calls the relay handler exactly once; the default relay calls the selected route's handler exactly once", 2)
@@ -449,8 +485,10 @@ func runC04(p *core.Prog, r *core.Report) {
 		if methodFn != nil {
 			ml := lookupsOn(methodFn, nextKey, methodTags)
 			var exact, all *nextLookup
+			starTag, haveStar := methodTagTable(p, methodTags)["*"]
 			for _, l := range ml {
-				if strings.HasPrefix(l.kind, "methodtag:const:") {
+				if strings.HasPrefix(l.kind, "methodtag:const:") || (haveStar && l.kind == "const:"+starTag) {
+					// methodTagMap[MethodAll], or the tag it maps MethodAll to written as a constant
 					all = l
 				} else if strings.HasPrefix(l.kind, "methodtag:") {
 					exact = l
